@@ -55,6 +55,9 @@ type Frame struct {
 	// loop bookkeeping
 	loopOrd map[*ssa.BasicBlock]int
 	loopEntry map[*ssa.BasicBlock]*State
+	// panics that a deferred recover() will catch: states at the panicking instruction
+	panicStates []*State
+	recovering  bool // this frame is a deferred closure running because of a panic: recover() returns non-nil
 	// named result allocs etc.
 }
 
@@ -301,6 +304,41 @@ func (u *Unit) execFunction(fr *Frame, st *State) *execResult {
 			}
 		}
 		exitStates[b.Index] = cur
+	}
+	// panics caught by a deferred recover(): run the deferred closures, then the function's recover block
+	if len(fr.panicStates) > 0 && fn.Recover != nil {
+		ps := u.merge(fr.panicStates)
+		if ps != nil {
+			cur := ps.Clone()
+			for i := len(fr.defers) - 1; i >= 0 && cur != nil; i-- {
+				d := fr.defers[i]
+				nf := &Frame{fn: d.Clo.Fn, vals: map[ssa.Value]*Val{}, caller: fr, depth: fr.depth + 1, u: u, entry: cur, recovering: true}
+				for j, fv := range d.Clo.Fn.FreeVars {
+					nf.vals[fv] = d.Clo.Bindings[j]
+				}
+				u.comment("deferred closure (recovering) " + fnName(d.Clo.Fn))
+				r := u.execFunction(nf, cur)
+				cur = r.st
+				if cur != nil {
+					cur = cur.Clone()
+				}
+			}
+			if cur != nil {
+				for _, ins := range fn.Recover.Instrs {
+					if ret, ok := ins.(*ssa.Return); ok {
+						var vs []*Val
+						for _, rv := range ret.Results {
+							vs = append(vs, u.operand(fr, rv))
+						}
+						retStates = append(retStates, cur)
+						retVals = append(retVals, vs)
+						retOrds = append(retOrds, retOrdOf[ret])
+						break
+					}
+					cur = u.execInstr(fr, cur, ins)
+				}
+			}
+		}
 	}
 	if len(retStates) == 0 {
 		return &execResult{st: nil}
